@@ -33,6 +33,24 @@ class A(Adapter):
                 out.append(Config(f"knapsack-n{n}-{'dense' if dense else 'sparse'}", build,
                                   {"dense": dense, "f32": True, "budget": rat(b), "tol": rat(1e-4)},
                                   dense=dense, n=n, budget=b, partner=partner))
+        # item weights on a coarse grid (multiples of 1/16): an item that fills the bag EXACTLY (weight == remaining budget) is legal
+        # by the rules and by the mask; with uniform float weights that boundary is never met
+        import jax.numpy as jnp
+
+        class Quantised(RandomGenerator):
+            def __call__(self, key):
+                s = super().__call__(key)
+                return s.replace(weights=jnp.maximum(jnp.ceil(s.weights * 16), 1) / 16)
+
+        for n, b in [(8, 1.5), (12, 2.0)]:
+            for dense in (True, False):
+                def buildq(n=n, b=b, dense=dense):
+                    return Knapsack(generator=Quantised(num_items=n, total_budget=b), reward_fn=DenseReward() if dense else SparseReward())
+                def partnerq(n=n, b=b, dense=dense):
+                    return Knapsack(generator=Quantised(num_items=n, total_budget=b), reward_fn=SparseReward() if dense else DenseReward())
+                out.append(Config(f"knapsack-q16-n{n}-{'dense' if dense else 'sparse'}", buildq,
+                                  {"dense": dense, "f32": True, "budget": rat(b), "tol": rat(1e-4)},
+                                  dense=dense, n=n, budget=b, partner=partnerq))
         return out
 
     def ser_state(self, env, s):
